@@ -8,6 +8,7 @@ pub mod world;
 pub mod t_manip;
 pub mod t_traverse;
 pub mod t_equal;
+pub mod t_model;
 
 pub type Harness = fn();
 pub fn registry() -> Vec<(&'static str, Harness)> {
@@ -17,5 +18,6 @@ pub fn registry() -> Vec<(&'static str, Harness)> {
     t_manip::register(&mut v);
     t_traverse::register(&mut v);
     t_equal::register(&mut v);
+    t_model::register(&mut v);
     v
 }
